@@ -6,11 +6,13 @@
    HalmosBitVec, 2 = TRUE/FALSE, 3 = symbolic HalmosBool;  [1 + e] for the internal exception e
    (1 NotConcreteError, 2 ZeroDivisionError, 3 TypeError, 4 NotImplementedError);
    [9; work] when the all-concrete EXP path would materialise an integer of more than 4096
-   bits (the model value x ^ y is then not evaluated here; `work` is the predicted bit size). *)
+   bits according to the regenerated work measure (the model value is then not evaluated here;
+   `work` is the predicted bit size).  With pow(lhs, rhs, 1 << size) the measure is 2 * size + 2
+   and this never happens; it does as soon as the source computes the unreduced power again. *)
 From Coq Require Import ZArith List Bool String.
 From Coq Require Extraction.
 From Coq Require Import ExtrOcamlBasic ExtrOcamlString.
-From HV Require Import Base.Word Base.SmtBV Gen.GenBitvecGuards Model.BitVecModel.
+From HV Require Import Base.Word Base.SmtBV Model.PyInt Gen.GenBitvecGuards Model.BitVecModel.
 Import ListNotations.
 Open Scope Z_scope.
 
@@ -35,13 +37,6 @@ Definition enc_res {A} (f : A -> list Z) (r : res A) : list Z :=
   match r with Ok a => f a | Err e => [1 + err_code e] end.
 
 Definition WORK_LIMIT : Z := 4096.
-(* cost of evaluating the model's own [x ^ y] here: Z.pow iterates y times even for x <= 1,
-   where CPython answers at once (exp_work = 0) *)
-Definition eval_cost (a b : bv) : Z :=
-  match a, b with
-  | Cv x, Cv y => if y <=? 1 then 0 else if x <=? 1 then y else y * Z.log2 x
-  | _, _ => 0
-  end.
 
 Definition op_of (z : Z) : option op :=
   nth_error [ADD; MUL; SUB; DIV; SDIV; MOD; SMOD; EXP; SIGNEXTEND; LT; GT; SLT; SGT; EQ; AND; OR; XOR;
@@ -57,7 +52,7 @@ Definition c06_run2 (a : list Z) : list Z :=
           let y := dec_val 1 k2 v2 in
           let ev := mk_ev v1 v2 0 in
           let eb := mk_eb v1 v2 0 in
-          let w := match o with EXP => eval_cost (popi x) (popi y) | _ => 0 end in
+          let w := match o with EXP => exp_work 256 (popi x) (popi y) | _ => 0 end in
           if WORK_LIMIT <? w then [9; w]
           else enc_res (enc_val ev eb) (run2 sebc o x y)
       | None => []
@@ -114,9 +109,9 @@ Definition c06_method (a : list Z) : list Z :=
       let L := enc_bl ev eb in
       match m with
       | 0 => B (bv_add n x y) | 1 => B (bv_sub n x y) | 2 => B (bv_mul n abs x y)
-      | 3 => B (bv_div n abs x y) | 4 => enc_res B (bv_sdiv n abs x y)
-      | 5 => B (bv_mod n abs x y) | 6 => B (bv_smod n abs x y)
-      | 7 => if WORK_LIMIT <? eval_cost x y then [9; exp_work x y]
+      | 3 => enc_res B (bv_div n abs x y) | 4 => enc_res B (bv_sdiv n abs x y)
+      | 5 => enc_res B (bv_mod n abs x y) | 6 => B (bv_smod n abs x y)
+      | 7 => if WORK_LIMIT <? exp_work n x y then [9; exp_work n x y]
              else enc_res B (bv_exp n abs abs sebc x y)
       | 8 => B (bv_lshl n x y) | 9 => B (bv_lshr n x y) | 10 => B (bv_ashr n x y)
       | 11 => B (bv_and n x y) | 12 => B (bv_or n x y) | 13 => B (bv_xor n x y)
@@ -131,11 +126,14 @@ Definition c06_method (a : list Z) : list Z :=
   | _ => []
   end.
 
-(* the generated pure functions: [f; args...]  f: 0 is_power_of_two x, 1 to_signed x bit_size *)
+(* the generated pure functions: [f; args...]  f: 0 is_power_of_two x, 1 to_signed x bit_size,
+   2 py_pow3 a e m, 3 exp_work n (Cv x) (Cv y) *)
 Definition c06_pure (a : list Z) : list Z :=
   match a with
   | [0; x] => [b2w (is_power_of_two x)]
   | [1; x; n] => [to_signed x n]
+  | [2; x; e; m] => [py_pow3 x e m]
+  | [3; n; x; y] => [exp_work n (Cv x) (Cv y)]
   | _ => []
   end.
 
